@@ -153,6 +153,101 @@ c.check("extraction", _extract_checks)
 c.raises("FileNotFoundError")
 
 
+# ------------------------------------------------------------------------------------------------
+# The file-level wrapper and the command entry point of cache creation.  fill_cache_from_envelope: what is extracted is the content of the
+# INPUT file, with the SAME cache object and the two patterns each in its own place; the output envelope file holds exactly what the data
+# function returned; a rejection writes nothing.  cmd_cache_create.main: one partition of the requested erase-block size is filled by the
+# selected operation with the named arguments and only then closed into the output file - a rejection leaves no cache file behind.
+import contracts.C00_common as C00  # noqa: E402
+
+
+def _wrapper_setup(it, env):
+    it.call_site_summaries = {"CacheFromEnvelope.fill_cache_from_envelope_data":
+                              C00.recording_summary("CacheFromEnvelope.fill_cache_from_envelope_data", ("GeneratorError", "ValueError"), result=lambda it_: it_.fresh_bytes("stripped_envelope"))}
+
+
+c = Contract(FC, "CacheFromEnvelope.fill_cache_from_envelope", ["C11"])
+c.param("cache", C10.CP)
+c.param("input_envelope", PathStr(exists=True))
+c.param("output_envelope", PathStr())
+c.param("omit_payload_regex", Opt(Str()))
+c.param("dependency_regex", Opt(Str()))
+c.variants = [("file-level", {})]
+c.setup = _wrapper_setup
+c.requires("output_is_another_file", "input_envelope != output_envelope")
+
+
+def _wrapper_checks(it, ctx):
+    calls = C00.calls_of(it, "CacheFromEnvelope.fill_cache_from_envelope_data")
+    if ctx.outcome != "return":
+        return [("a_rejection_writes_nothing", z3.BoolVal(len(it.fs.log) == 0))]
+    goals = [("extracts_once", z3.BoolVal(len(calls) == 1))]
+    if len(calls) == 1:
+        goals.append(("extracts_from_the_content_of_the_input_file", calls[0][2]["envelope_data"].e == ctx.eval("old(FILE(input_envelope))").e))
+        goals += C00.reaches(calls[0], ctx, [("cache", "cache"), ("omit_payload_regex", "omit_payload_regex"), ("dependency_regex", "dependency_regex")])
+        goals.append(("output_file_holds_the_stripped_envelope", ctx.eval("FILE(output_envelope)").e == calls[0][3].e))
+        goals.append(("input_file_untouched", ctx.eval("FILE(input_envelope)").e == ctx.eval("old(FILE(input_envelope))").e))
+    return goals
+
+
+c.check("wrapper", _wrapper_checks)
+c.raises("GeneratorError")
+c.raises("ValueError")
+c.raises("FileNotFoundError")
+
+
+def _cc_main_setup(it, env):
+    S = C00.recording_summary
+    it.call_site_summaries = {"CacheFromPayloads.fill_cache_from_payloads": S("CacheFromPayloads.fill_cache_from_payloads", ("ValueError", "FileNotFoundError", "GeneratorError")),
+                              "CacheFromEnvelope.fill_cache_from_envelope": S("CacheFromEnvelope.fill_cache_from_envelope", ("GeneratorError", "ValueError", "FileNotFoundError")),
+                              "CacheMerge.merge_cache_files": S("CacheMerge.merge_cache_files", ("ValueError", "FileNotFoundError", "GeneratorError")),
+                              "CachePartition.close_and_save_cache": S("CachePartition.close_and_save_cache", ("FileNotFoundError",))}
+
+
+c = Contract(FC, "main", ["C11", "C10"])
+c.param("cache_create_subcommand", Const("from_envelope"))
+c.param("eb_size", Int())
+c.param("input", ListT([Str(), Str()]))
+c.param("input_envelope", Str())
+c.param("output_envelope", Str())
+c.param("omit_payload_regex", Opt(Str()))
+c.param("dependency_regex", Opt(Str()))
+c.param("output_file", Str())
+c.variants = [(v, {"cache_create_subcommand": Const(v)}) for v in ("from_envelope", "from_payloads", "merge")]
+c.call_by_keyword = True
+c.setup = _cc_main_setup
+
+
+def _cc_main_checks(it, ctx):
+    names = {"from_envelope": "CacheFromEnvelope.fill_cache_from_envelope", "from_payloads": "CacheFromPayloads.fill_cache_from_payloads", "merge": "CacheMerge.merge_cache_files"}
+    sub = ctx.arg("cache_create_subcommand").conc
+    fills = [t for t in it.trace if t[0] == "call" and t[1] in names.values()]
+    closes = C00.calls_of(it, "CachePartition.close_and_save_cache")
+    if ctx.outcome != "return":
+        return [("a_rejection_saves_no_cache_file", z3.BoolVal(len(it.fs.log) == 0))]
+    goals = [("the_selected_operation_fills_once_and_then_the_partition_is_saved_once", z3.BoolVal(len(fills) == 1 and fills[0][1] == names[sub] and len(closes) == 1
+                                                                                                   and it.trace.index(fills[0]) < it.trace.index(closes[0])))]
+    if len(fills) == 1 and len(closes) == 1 and fills[0][1] == names[sub]:
+        cache = fills[0][2]["cache"]
+        goals.append(("the_partition_that_was_filled_is_the_one_saved", z3.BoolVal(closes[0][2]["self"] is cache)))
+        a = cache.attrs  # the summaries do not touch the partition: these are the values the constructor left
+        empty = (getattr(a.get("first_slot"), "conc", None) is True and getattr(a.get("cache_data"), "conc", None) == b"" and getattr(a.get("uris"), "items", None) == [])
+        goals.append(("partition_of_the_requested_erase_block_size_starts_empty", z3.And(C00.same_value(a["eb_size"], ctx.arg("eb_size")), z3.BoolVal(empty))))
+        goals += C00.reaches(closes[0], ctx, [("output_file", "output_file")])
+        if sub == "from_envelope":
+            goals += C00.reaches(fills[0], ctx, [(n, n) for n in ("input_envelope", "output_envelope", "omit_payload_regex", "dependency_regex")])
+        else:
+            formal = "input_payloads" if sub == "from_payloads" else "input_files"
+            formal = formal if formal in fills[0][2] else [k for k in fills[0][2] if k != "cache"][0]
+            goals.append(("inputs_reach_the_operation", z3.BoolVal(fills[0][2][formal] is ctx.arg("input"))))
+    return goals
+
+
+c.check("entry", _cc_main_checks)
+for e_ in ("GeneratorError", "ValueError", "FileNotFoundError"):
+    c.raises(e_)
+
+
 # ================================================================================================
 # B — bounded stand-in through the CLI entry points
 # ================================================================================================
